@@ -39,7 +39,9 @@ CTX = [("int", dict(type="int", size=None, nullable=True, default=None)),
 POS = ["S", "T", "C1", "C2", "C3", "K1", "K2", "K3", "RS", "RT", "RC", "IX", "K4", "Q", "TY", "D"]
 BASE = {"S": "sc", "T": "tb", "C1": "ca", "C2": "cb", "C3": "cc", "K1": "ka", "K2": "kb", "K3": "kc", "RS": "rs", "RT": "rt", "RC": "rc",
         "IX": "ix", "K4": "kd", "Q": "sq", "TY": "ty", "D": "dm"}
-FORMS = ["lower", "Mixed", "UPPER", "x_1", "dq", "bt", "br", "dq_us", "br_us", "dq_sp", "dq_nest"]
+FORMS = ["lower", "Mixed", "UPPER", "x_1", "dq", "bt", "br", "dq_us", "br_us", "dq_sp", "dq_nest", "bt_dbl", "br_dbl", "bt_dash"]
+# words the grammar actions compare by value although they are not tokens: legal names in any spelling but the exact upper-case one
+PSEUDO_KW = ["ASC", "DESC"]
 SCRIPT = ("CREATE TABLE {S}.{T} ({C1} int, {C2} varchar(5), {C3} int, CONSTRAINT {K1} PRIMARY KEY ({C1}, {C2}), "
           "CONSTRAINT {K2} UNIQUE ({C2}, {C3}), CONSTRAINT {K3} FOREIGN KEY ({C3}) REFERENCES {RS}.{RT} ({RC}));\n"
           "CREATE INDEX {IX} ON {S}.{T} ({C1}, {C3});\n"
@@ -76,7 +78,9 @@ def keywords():
 def form(name, f):
     return {"lower": name, "Mixed": name.capitalize(), "UPPER": name.upper(), "x_1": name + "_1", "dq": '"%s"' % name.capitalize(),
             "bt": "`%s`" % name.capitalize(), "br": "[%s]" % name.capitalize(), "dq_us": '"_%s_"' % name, "br_us": "[_%s_]" % name,
-            "dq_sp": '"%s %s"' % (name.capitalize(), name), "dq_nest": '"[%s]"' % name, "bt_nest": '`"%s"`' % name}[f]
+            "dq_sp": '"%s %s"' % (name.capitalize(), name), "dq_nest": '"[%s]"' % name, "bt_nest": '`"%s"`' % name,
+            # a delimited name that contains its own (doubled) delimiter, and one with a dash
+            "bt_dbl": "`%s``%s`" % (name[0], name[1:]), "br_dbl": "[%s]]%s]" % (name[0], name[1:]), "bt_dash": "`%s-%s`" % (name[0], name[1:])}[f]
 
 
 def strip1(s):
@@ -93,8 +97,8 @@ def bounds(tier):
 
 def gen_cases(tier):
     cases = []
-    for kw in keywords():
-        for f in "UlC":
+    for kw in keywords() + PSEUDO_KW:
+        for f in ("lC" if kw in PSEUDO_KW else "UlC"):
             for p in range(3):
                 for ci in range(len(CTX)):
                     for listed in (None, "pk", "uq"):
@@ -228,7 +232,7 @@ def features(case):
     f = []
     if case["kind"] == "id":
         for p, fm in case["assign"].items():
-            if fm in ("dq", "bt", "br", "dq_us", "br_us", "dq_sp"):
+            if fm in ("dq", "bt", "br", "dq_us", "br_us", "dq_sp", "bt_dbl", "br_dbl", "bt_dash"):
                 f.append("delimited:" + p)
             if fm in ("dq_nest", "bt_nest"):
                 f.append("delimited:nested-delimiters")
